@@ -4,6 +4,14 @@
     parametric algorithm of Model/Weigh.v (its binary64 instance is tied to the Go
     code bit for bit, and to this instance within 1e-9, by the correspondence run).
     Ring and pickers: naturals, no size bound. *)
+(** READING GUIDE.  Property clauses: C04_weights_*, C04_fixed_honoured*, C04_scaled_*, C04_dynamic_equal_share,
+    C04_set_weight_*, C04_slots_*, C04_zero_weight_no_slot, C04_positive_weight_has_slot, C04_fill_counts*,
+    C04_rr_*, C04_positive_never_starved, C04_zero_never_picked_*, C04_rnd_support, C04_route_split*,
+    C04_rr_share_end_to_end, C04_binary64_* (the instance Go runs), and the two *_refuted theorems.
+    MECHANISM LEMMAS (they justify shortcuts of Check/C04.v or relate two formulations of the model;
+    not coverage of a property clause): C04_probe_is_scan, C04_probe_full_diverges, C04_scan_is_model,
+    C04_ring_status_is_model, C04_route_status_is_model, C04_weighQ_is_unrepaired,
+    C04_route_ring_Q_is_unrepaired, C04_fallback_never_on_Q. *)
 From Coq Require Import List ZArith NArith QArith Qminmax Permutation Reals.
 From Flocq Require Import Core.Raux Core.Zaux IEEE754.Binary IEEE754.Bits.
 From Fabio Require Import Lib.Outcome Model.Weigh Model.Ring Model.Pick
@@ -242,6 +250,45 @@ Theorem C04_route_split_any_tie_order : forall order1 order2 (l : list Q),
 Proof. exact route_split_order_independent. Qed.
 Print Assumptions C04_route_split_any_tie_order.
 
+(* ---- composed statements on the exact-rational instance ---- *)
+(* all targets fixed, weights summing to exactly 100%: honoured as given *)
+Theorem C04_fixed_honoured_sum_one : forall (l : list Q) i f w, (Z.of_nat (length l) <= 3000000000)%Z ->
+  nth_error l i = Some f -> (0 < f)%Q -> (sum_pos l == 1)%Q ->
+  nth_error (weighQ l) i = Some w -> (w == f)%Q.
+Proof. exact fixed_honoured_sum_one. Qed.
+Print Assumptions C04_fixed_honoured_sum_one.
+
+(* `route weight` followed by weighTargets: every matching target's effective weight is weight / n *)
+Theorem C04_set_weight_then_weigh : forall (m : list bool) (wt : Q) (l : list Q) i w,
+  length m = length l -> (Z.of_nat (length l) <= 3000000000)%Z -> (0 < wt)%Q ->
+  let l' := fst (set_weight arithQ m wt l) in
+  (sum_pos l' <= 1)%Q -> n_fix l' < length l' ->
+  nth_error m i = Some true -> nth_error (weighQ l') i = Some w ->
+  (w == wt / qn (count_true m))%Q.
+Proof. exact set_weight_then_weigh. Qed.
+Print Assumptions C04_set_weight_then_weigh.
+
+(* no fixed weight: the ring is the target list, one slot each *)
+Theorem C04_route_ring_all_dynamic : forall order (l : list Q), n_fix l = 0 ->
+  route_ring arithQ order l = Ok (weighQ l, map Some (seq 0 (length l))).
+Proof. exact route_ring_all_dynamic. Qed.
+Print Assumptions C04_route_ring_all_dynamic.
+
+(* weights -> ring -> one full round-robin cycle, for every route with fewer than 10000 targets, with
+   or without fixed weights, any tie order, any cursor (no uint64 wrap inside the cycle): the fraction
+   of requests of target i is its weight up to (len+1)/(10000-len) *)
+Theorem C04_rr_share_end_to_end : forall order (l : list Q) total,
+  l <> [] -> (Z.of_nat (length l) < 10000)%Z -> (forall s, Permutation (order s) s) -> (total < two64)%N ->
+  exists r, route_ring arithQ order l = Ok (weighQ l, r) /\ r <> [] /\
+    ((total + N.of_nat (length r) <= two64)%N ->
+     exists picks c, rr_run (length r) r total = Ok (picks, c) /\ length picks = length r /\
+       forall i w, nth_error (weighQ l) i = Some w ->
+         let share := (inject_Z (Z.of_nat (occupancy (Some i) picks)) / inject_Z (Z.of_nat (length r)))%Q in
+         let B := ((qn (length l) + 1) / (inject_Z 10000 - qn (length l)))%Q in
+         (- B <= share - w)%Q /\ (share - w <= B)%Q).
+Proof. exact rr_share_end_to_end. Qed.
+Print Assumptions C04_rr_share_end_to_end.
+
 (* ---- binary64 (the instance Go executes).  The theorems of this group go through Flocq's B2R and
    therefore use the four axioms of Coq's Reals library; nothing else in this file does. ---- *)
 (* THE HEADLINE (code since 290c777): for EVERY non-empty list of binary64 fixed weights -- NaN, +-Inf,
@@ -290,6 +337,39 @@ Theorem C04_binary64_no_panic_on_domain :
        status_of (route_ring arithF order fixed) = Ok tt).
 Proof. exact binary64_on_domain_all. Qed.
 Print Assumptions C04_binary64_no_panic_on_domain.
+
+(* never starved / never picked on binary64: a positive usable weight has a slot, a zero weight none *)
+Theorem C04_binary64_positive_weight_has_slot : forall w : f64, is_finite 53 1024 w = true ->
+  (0 < B2R 53 1024 w <= 1 + / 65536)%R -> (1 <= slot_count arithF w <= 10000)%Z.
+Proof. exact slot_countF_pos. Qed.
+Print Assumptions C04_binary64_positive_weight_has_slot.
+
+Theorem C04_binary64_zero_weight_no_slot : forall w : f64, is_finite 53 1024 w = true ->
+  (B2R 53 1024 w = 0)%R -> slot_count arithF w = 0%Z.
+Proof. exact slot_countF_zero. Qed.
+Print Assumptions C04_binary64_zero_weight_no_slot.
+
+(* ---- OPEN FINDING F-C04-3: where the even fallback of 290c777 replaces a proportional distribution ----
+   refuted: fixed weights 5e-324 and 1e-323 (bits 1, 2), all targets fixed: 0.5 / 0.5 instead of 1/3, 2/3;
+   1e308 and 1.5e308: 0.5 / 0.5 instead of 0.4 / 0.6 (the exact-rational instance of the same algorithm
+   gives the proportional values) ... *)
+Theorem C04_binary64_fallback_refuted :
+  uses_fill arithF (map f64_of_bits [1; 2]%Z) = false
+  /\ weighF [1; 2]%Z = [4602678819172646912; 4602678819172646912]%Z
+  /\ map Qreduction.Qred (weighQ (map (fun b => f64_to_Q (f64_of_bits b)) [1; 2]%Z)) = [1 # 3; 2 # 3]%Q
+  /\ weighF [9214871658872686752; 9217376869322697968]%Z = [4602678819172646912; 4602678819172646912]%Z
+  /\ map Qreduction.Qred (weighQ (map (fun b => f64_to_Q (f64_of_bits b)) [9214871658872686752; 9217376869322697968]%Z))
+     = [2 # 5; 3 # 5]%Q.
+Proof. exact binary64_fallback_refuted. Qed.
+Print Assumptions C04_binary64_fallback_refuted.
+
+(* ... and on the complement (finite weights that are dynamic or in [2^-1000, 1], some target fixed) the
+   fallback is never taken: the weights are the computed ones and the ring is built by the fill *)
+Theorem C04_binary64_no_fallback_on_domain : forall l : list f64,
+  Forall sane_fixed l -> (Z.of_nat (length l) <= 3000000000)%Z -> n_fixed arithF l <> 0 ->
+  uses_fill arithF l = true /\ weigh arithF l = weigh_unrepaired arithF l.
+Proof. exact binary64_no_fallback_on_domain. Qed.
+Print Assumptions C04_binary64_no_fallback_on_domain.
 
 (* ---- the defects commit 290c777 repaired, as refutations about the [_unrepaired] model ---- *)
 (* F-C04-1: `weight Inf` / `weight 5e-324`: slot count -2^63, make() of a negative length *)
